@@ -17,7 +17,7 @@ LEVEL = "model_checking"
 RULE = (
     "the operator expressions of C01 (depth 1-3 over the P/PC/TT/numeric alphabets, exact general position) plus, "
     "for every alphabet shape S of every kind, the law family S|~S, S&~S, S-S, S^S, S^~S, S|S, S&S, ~~S and the "
-    "Empty/Whole tables; each executed on the real code and the returned object validated structurally "
+    "Empty/Whole tables, also for compound shapes that were used and then moved in place; each executed on the real code and the returned object validated structurally "
     "(closed chains, no zero-length piece, no self-crossing, one outer boundary, holes inside and pairwise "
     "outside, components disjoint, sorted subshapes, kind tables, singletons by identity when the exact "
     "reference region is empty/whole on every arrangement face). non-trivial = result is not an operand copy; "
